@@ -101,6 +101,8 @@ func C14(c *core.Ctx) {
 		{"AA-RSA", sessCfg{"bac", []int{2}, "rsa", false, true, "genuine"}, sessOpt{false, false, "mrz"}},
 		{"AA-ECDSA", sessCfg{"pace+bac", []int{13}, "ecdsa", false, true, "genuine"}, sessOpt{false, false, "mrz"}},
 		{"AA+CAM-untrusted-issuer", sessCfg{"cam", []int{}, "ecdsa", true, false, "genuine"}, sessOpt{false, false, "can"}},
+		// signatures longer than 256 octets: needs an extended-length response live, and evidence fields above 256 octets offline
+		{"AA-RSA-large", sessCfg{"bac", []int{}, "rsa", false, true, "genuine"}, sessOpt{false, false, "mrz"}},
 	}
 	reps := core.Pick(c, 2, 12)
 	type live struct {
@@ -116,6 +118,15 @@ func C14(c *core.Ctx) {
 			v := randomVariety(c.Rand)
 			v.Transport = chipsim.Transport{ExtendedLength: true, AllowOversizeShortResponse: true, LengthErrorKeepsSession: true}
 			v.MaxLe = 256
+			if m.name == "AA-RSA-large" {
+				if k > 0 && !c.Thorough() {
+					continue
+				}
+				v.AaBits, v.MaxLe = []int{3072, 4096, 2560}[k%3], 65536
+				if v.AaHash == "sha512" {
+					v.AaHash = "sha256"
+				}
+			}
 			lives = append(lives, live{m: m, v: v})
 		}
 	}
@@ -176,7 +187,22 @@ func C14(c *core.Ctx) {
 			if o := get(&sb); o != nil {
 				other = *o
 			}
-			for kind, val := range mutateField(*cur, other, c.Rand) {
+			muts := mutateField(*cur, other, c.Rand)
+			// every octet position of a short field (counters, scalars), three positions of a long one
+			var positions []int
+			if n := len(*cur); n > 0 && n <= 24 {
+				for p := 0; p < n; p++ {
+					positions = append(positions, p)
+				}
+			} else if n > 24 {
+				positions = []int{0, n / 2, n - 1}
+			}
+			for _, p := range positions {
+				b := append([]byte{}, (*cur)...)
+				b[p] ^= 1 << uint(c.Rand.Intn(8))
+				muts[fmt.Sprintf("bitflip@%d", p)] = b
+			}
+			for kind, val := range muts {
 				if field == "smSsc" && kind == "empty" {
 					continue // documented legacy default (counter 2)
 				}
